@@ -166,9 +166,11 @@ def main(argv=None):
             "samples": samples,
             "obligations": obligations,
             "discharged": discharged,
-            "evaluations": obligations,
+            "evaluations": paths + sum(r["validated"] for r in results),
             "distinct_nontrivial": sum(r["nontrivial"] for r in results),
-            "rule": "states = feasible paths of the real functions found by symbolic execution; transitions = branch "
+            "rule": "evaluations = executions of the real code by this run (symbolic executions, one per feasible path, plus "
+                    "concrete replays of solver-chosen inputs on the unpatched code); "
+                    "states = feasible paths of the real functions found by symbolic execution; transitions = branch "
                     "decisions taken; obligations = SMT queries 'path condition AND assumptions AND NOT property' "
                     "(discharged = unsat); distinct_nontrivial = paths with a non-empty path condition; "
                     "traces_validated = paths whose solver-chosen input was run through the unpatched code with "
